@@ -158,6 +158,27 @@ class C09(Check):
 
     def generate(self, rng: random.Random, r: int, tier: str) -> dict:
         ws = G.gen_workspace(rng, roots=(1, 3), defs=(3, 9), p_ref=0.7, p_family=0.4, p_cross_root=0.6, p_service=0.1, max_fields=4)
+        if rng.random() < 0.2:
+            # a type whose namespace repeats (or starts with) its own short name - ns/thing/thing.1.0.dsdl, ns/Statuses/Status.1.0.dsdl -
+            # that refers without dots to a sibling in its own namespace, while the enclosing namespace holds a type of that short
+            # name with another body (or, one time in three, the sibling is missing from the enclosing namespace only)
+            r0 = ws["roots"][0]
+            rn = r0["name"]
+            taken = {d0["name"].lower() for d0 in r0["defs"]}
+            sh = rng.choice(["thing", "Foo", "Status", "x9", "Node"])
+            nsc = sh + rng.choice(["", "", "es", "_", "2"])
+            mid = rng.choice(["", "", ".deep"])
+            base = rn + mid + "." + nsc
+            sib = rng.choice(["Part", "Code", "Bar"])
+            names = [base + "." + sh, base + "." + sib, rn + mid + "." + sib]
+            clash = any(n0.lower() in taken or any(t0.startswith(n0.lower() + ".") or n0.lower().startswith(t0 + ".") for t0 in taken) for n0 in names + [base])
+            if not clash:
+                def mk(name, items):
+                    return {"name": name, "ver": [1, 0], "port": None, "ext": "dsdl", "dep": False, "secs": [{"union": False, "hdr": None, "items": items, "seal": "sealed"}]}
+                r0["defs"].append(mk(names[1], [["f", ["u", 8, "s"], "inner_sibling"]]))
+                if rng.random() < 0.67:
+                    r0["defs"].append(mk(names[2], [["f", ["u", 16, "s"], "outer_namesake"], ["f", ["u", 16, "s"], "more"]]))
+                r0["defs"].append(mk(names[0], [["f", ["ref", names[1], 1, 0, "rel"], "sibling"], ["f", ["u", 8, "s"], "tail"]]))
         uni = Universe(ws)
         nroots = len(ws["roots"])
         scn: dict = {"ws": ws, "symlinks": W.symlinks_for(ws), "reads": [], "defect": None}
